@@ -1,8 +1,9 @@
 """Per-property configuration of the driver: layers (test functions), budgets, evidence text."""
 
 
-def L(test, quick, thorough, shards=16, **kw):
-    d = {"test": test, "quick": {"checks": quick, "shards": 1}, "thorough": {"checks": thorough, "shards": shards}}
+def L(test, quick, thorough, shards=16, qenv=None, tenv=None, **kw):
+    d = {"test": test, "quick": {"checks": quick, "shards": 1, "env": qenv or {}},
+         "thorough": {"checks": thorough, "shards": shards, "env": tenv or {}}}
     d.update(kw)
     return d
 
@@ -171,6 +172,22 @@ CHECKS["C13"] = {
     "technique": "property-based testing (rapid): generated raw requests/responses through the real server stack, round-trip equality oracle at the byte level",
     "level_text": "Bounded random exploration over a request/response grammar; the real net/http request parser, ReverseProxy and response writer are in the loop.",
     "level_note": "Domain: RFC 3986 request targets and RFC 9110 field values, prefix spelled literally by the client; go1.26.8 net/http (the project pins 1.24.2).",
+}
+
+CHECKS["C14"] = {
+    "level": "exploration",
+    "rule": "Layer 1 (TestVF_C14_Unit, exhaustive small scope): memory limit 0-6 x total limit {unlimited,1-8} x body length 0-10 "
+            "(0-13 in the thorough tier) x EVERY composition of the length into write chunks x both constructors; oracle: bytes read "
+            "back = bytes written, overflow <=> limit>0 and total>limit, bytes in memory <= limit after every write, spill file "
+            "exists <=> spilled, temp directory empty after Close (idempotent). Layer 2 (TestVF_C14): generated end-to-end cases "
+            "through the middlewares: request/response buffering on/off, limits at body size -1/=/+1, chunk schedules with pauses, "
+            "endings success / 413 / 500 / target fault / client abort / event stream / upgrade; oracle on contact instants, exact "
+            "bytes and an empty temp directory. Non-trivial = a chunk crossing the memory limit or an ending other than success. "
+            "Distinct by case tuple / plan hash.",
+    "layers": [L("TestVF_C14_Unit", 1, 1, shards=1, rapid=False, tenv={"VF_C14_MAXLEN": "13"}), L("TestVF_C14", 800, 8000)],
+    "technique": "exhaustive small-scope enumeration of the buffer (every chunking of every length) + property-based testing (rapid) of the middlewares on a virtual clock",
+    "level_text": "Layer 1 is a complete enumeration of the stated finite space; layer 2 is bounded random exploration with exact instants.",
+    "level_note": "Private TMPDIR per process, so spill files cannot be confused with anything else.",
 }
 
 ALL_IDS = ["C%02d" % i for i in range(1, 21)]
